@@ -13,7 +13,7 @@ use std::process::{Command, Stdio};
 use std::time::{Duration, Instant};
 
 pub const DIRECTIONS: [&str; 5] = ["car-nest", "cdr-nest", "alist", "vector-nest", "quote-chain"];
-pub const DATA_OPS: [&str; 7] = ["read", "quote-evaluate", "build", "collect", "equal", "write", "drop"];
+pub const DATA_OPS: [&str; 8] = ["read", "quote-evaluate", "build", "build-sliced", "collect", "equal", "write", "drop"];
 pub const OTHER: [&str; 8] = [
     "closure-chain/build",
     "closure-chain/collect",
@@ -190,6 +190,34 @@ fn scenario_body(scenario: &str, n: usize) -> String {
                 Ok(())
             }
             (d, "build") => run_forms(&mut vm, &build_program(d, "d1", n)),
+            (d, "build-sliced") => {
+                // the same through the stepping API, as the browser front end drives the VM:
+                // slices of 997 instructions, then a walk over the structure in slices of 1
+                let mut forms = build_program(d, "d1", n);
+                forms.push("(define (%walk-d x k) (if (pair? x) (%walk-d (cdr x) (+ k 1)) k))".into());
+                forms.push("(%walk-d d1 0)".into());
+                for (i, f) in forms.iter().enumerate() {
+                    let (cell, _) = marwood::parse::parse_text(f).map_err(|e| format!("{:?}", e))?;
+                    vm.prepare_eval(&cell).map_err(|e| format!("{:?}", e).chars().take(80).collect::<String>())?;
+                    let budget = if i + 1 == forms.len() { 3 } else { 997 };
+                    let mut guard = 0u64;
+                    loop {
+                        match vm.run_count(budget) {
+                            Ok(Some(r)) => {
+                                std::mem::forget(r);
+                                break;
+                            }
+                            Ok(None) => {}
+                            Err(e) => return Err(format!("{:?}", e).chars().take(80).collect::<String>()),
+                        }
+                        guard += 1;
+                        if guard > 50_000_000 {
+                            return Err("no progress".into());
+                        }
+                    }
+                }
+                Ok(())
+            }
             (d, "collect") => {
                 run_forms(&mut vm, &build_program(d, "d1", n))?;
                 vm.verif_collect();
@@ -379,8 +407,8 @@ pub fn run(tier: Tier, seed: u64, ev: &mut Evidence) -> Vec<Violation> {
         }
     }
     chosen.sort();
-    ev.rule = "grid {car-nest, cdr-nest, alist (a long list whose elements are pairs), vector-nest, quote-chain} x {read, quote-evaluate, build at run time, keep live across a forced \
-               collection, equal?, write, drop} + closure chains (build, collect, walk) + continuation chains (build, collect) + non-tail \
+    ev.rule = "grid {car-nest, cdr-nest, alist (a long list whose elements are pairs), vector-nest, quote-chain} x {read, quote-evaluate, build at run time, build and walk through the stepping API in \
+               slices, keep live across a forced collection, equal?, write, drop} + closure chains (build, collect, walk) + continuation chains (build, collect) + non-tail \
                recursion + nested expressions (read, evaluate), x depth {10^3,10^4,10^5} x {main thread, 2 MiB thread} x {release, debug}; each \
                cell runs in an isolated worker process and passes if the worker completes or returns an error; quick = seeded sample of 160 cells \
                plus every cell listed as a known finding, thorough = the whole grid. distinct = cell id; non-trivial = depth >= 10^4"
